@@ -4,8 +4,8 @@
 Require Extraction.
 Require Import ExtrOcamlBasic.
 From FQ Require Import Lib.ListX Lib.Mat Model.Types Model.Hardcode Model.Compact Model.Encode Model.Poly
-  Model.Default Model.Masking Model.Score Model.Placement Model.Qr Model.Helpers Model.Svg Model.Wasm
-  Spec.IsoTable9 Spec.Iso Spec.Gf Spec.Oracles Spec.Penalty.
+  Model.Default Model.Masking Model.Score Model.Placement Model.Qr Model.Helpers Model.Builder Model.Svg Model.Wasm
+  Spec.IsoTable9 Spec.Iso Spec.Gf Spec.Oracles Spec.Penalty Spec.Xml Spec.SvgDoc.
 Extraction Language OCaml.
 Separate Extraction
   Types.cell_byte Types.ecl_of_idx Types.mode_of_idx Types.ecl_idx Types.mode_idx
@@ -19,6 +19,7 @@ Separate Extraction
   Score.line Score.lines_score Score.dark_score Score.squares Score.score
   Qr.build Qr.build_unchecked Qr.build_trace Qr.no_options
   Helpers.print_matrix_with_margin
+  Builder.run_history Builder.new_builder
   Svg.default Svg.set_margin Svg.set_module_color Svg.set_background_color Svg.add_shape Svg.add_shape_color
   Svg.set_image Svg.set_image_background_color Svg.set_image_background_shape Svg.set_image_size Svg.set_image_gap
   Svg.set_image_position Svg.shape_of_idx Svg.ishape_of_idx Svg.to_str Svg.to_str_panics
@@ -27,4 +28,5 @@ Separate Extraction
   Wasm.set_ecl Wasm.set_version Wasm.qr_unchecked Wasm.qr_svg_unchecked Wasm.color_to_code
   Iso.iso_decode Iso.iso_min_version Iso.iso_codewords Iso.iso_region_map
   Oracles.oracle_fixed Oracles.oracle_labels Oracles.oracle_format Oracles.oracle_rs Oracles.oracle_data_codewords
-  Oracles.oracle_mask Oracles.oracle_mode Oracles.oracle_ec Oracles.vals_of Penalty.oracle_penalty.
+  Oracles.oracle_mask Oracles.oracle_mode Oracles.oracle_ec Oracles.vals_of Penalty.oracle_penalty
+  Xml.xml_parse SvgDoc.expected_doc SvgDoc.cfg_ok.
